@@ -23,6 +23,63 @@ def cmdQuorum (args : List String) : String :=
     s!"ci={fmtIdx (Quorum.jointCommitted c0 c1 ack)} vr={(Quorum.jointVote c0 c1 vt).toString} ci0={fmtIdx (Quorum.majorityCommitted c0 ack)} vr0={(Quorum.majorityVote c0 vt).toString}"
   | _ => "bad-op"
 
+/-! ### confchange unit command (tie X unit level, C13)
+
+`cc <op> <v> <o> <l> <n> <a> <progress> <last> <mi> <args…>` with sets as comma lists, `-` = nil/empty;
+progress = `id:learner:match:next:recentActive,…`; ops: `simple <changes>`, `enter <auto> <changes>`, `leave`,
+`restore <v> <o> <l> <n> <a>`; changes = `v1,l2,r3,u4`. Answer: `ok <cfg> p=<progress>` or `err`. -/
+
+def parseOptSet (s : String) : Option (List Nat) := if s == "-" then none else some (idList s)
+
+def parseChanges (s : String) : List ConfChangeSingle :=
+  if s == "-" || s == "" then []
+  else (splitOn1 s ',').filterMap fun tok =>
+    match tok.toList with
+    | c :: rest =>
+      let id := natOrZero (String.ofList rest)
+      match c with
+      | 'v' => some { typ := .addNode, nodeId := id }
+      | 'l' => some { typ := .addLearnerNode, nodeId := id }
+      | 'r' => some { typ := .removeNode, nodeId := id }
+      | 'u' => some { typ := .updateNode, nodeId := id }
+      | _ => none
+    | [] => none
+
+def parseProgress (s : String) (mi : Nat) : ProgressMap :=
+  if s == "-" || s == "" then []
+  else (splitOn1 s ',').filterMap fun tok =>
+    match (splitOn1 tok ':').map natOrZero with
+    | [id, lr, m, nx, ra] => some (id, ({ match_ := m, next := nx, isLearner := lr != 0, recentActive := ra != 0, inflights := { size := mi } } : Progress))
+    | _ => none
+
+def fmtCC (cfg : TrackerConfig) (trk : ProgressMap) : String :=
+  let os (m : Option (List Nat)) : String := match m with | none => "-" | some l => "{" ++ fmtIds l ++ "}"
+  "ok v={" ++ fmtIds cfg.voters ++ "}" ++ s!" o={os cfg.outgoing} l={os cfg.learners} n={os cfg.learnersNext} a={b2n cfg.autoLeave} p=" ++
+    ",".intercalate (trk.map fun (id, pr) => s!"{id}:{b2n pr.isLearner}:{pr.match_}:{pr.next}:{b2n pr.recentActive}")
+
+def cmdConfChange (args : List String) : String :=
+  match args with
+  | op :: v :: o :: l :: n :: a :: p :: last :: mi :: rest =>
+    let mi := natOrZero mi
+    let cfg : TrackerConfig := { voters := idList v, outgoing := parseOptSet o, learners := parseOptSet l,
+                                 learnersNext := parseOptSet n, autoLeave := a == "1" }
+    let trk : Tracker := { cfg := cfg, progress := parseProgress p mi, maxInflight := mi }
+    let ch : Changer := { tracker := trk, lastIndex := natOrZero last }
+    let res : Option (CE (TrackerConfig × ProgressMap)) :=
+      match op, rest with
+      | "simple", [cs] => some (ch.simple (parseChanges cs))
+      | "enter", [auto, cs] => some (ch.enterJoint (auto == "1") (parseChanges cs))
+      | "leave", _ => some ch.leaveJoint
+      | "restore", [v', o', l', n', a'] =>
+        some (restoreConf ch { voters := idList v', votersOutgoing := idList o', learners := idList l',
+                               learnersNext := idList n', autoLeave := a' == "1" })
+      | _, _ => none
+    match res with
+    | none => "bad-op"
+    | some (.ok (cfg', trk')) => fmtCC cfg' trk'
+    | some (.error _) => "err"
+  | _ => "bad-op"
+
 /-! ### token parsers -/
 
 abbrev Tok := List String
@@ -141,6 +198,7 @@ structure DriverState where
   nodes : List (Nat × Slot) := []
   verbose : Bool := false
   spec : Spec.Checker := {}
+  logs : List (Nat × RaftLog) := []
 
 def DriverState.get (st : DriverState) (k : Nat) : Option Slot := Quorum.lookup st.nodes k
 def DriverState.put (st : DriverState) (k : Nat) (s : Slot) : DriverState :=
@@ -273,6 +331,75 @@ def nodeOp (slot : Option Slot) (op : String) (args : Tok) (draws : List Nat) : 
     | "crash", _ => ("ok", some (.dead rn.raft.log.storage "crashed"))
     | _, _ => ("bad-op", slot)
 
+/-! ### log unit commands (tie X unit level, C18 / C08): `lg <k> <op> args…` on a standalone raftLog -/
+
+def fmtSE {α : Type} (f : α → String) : Except StorageErr α → String
+  | .ok a => f a
+  | .error e => e.toString
+
+def logOp (l : RaftLog) (op : String) (args : Tok) : String × RaftLog :=
+  let n (s : String) := natOrZero s
+  let pz {α : Type} (r : P α) (f : α → String × RaftLog) : String × RaftLog :=
+    match r with
+    | .ok a => f a
+    | .error _ => ("panic", l)
+  match storageOp l.storage op args with
+  | some (out, sto') => (out, { l with storage := sto' })
+  | none =>
+  match op, args with
+  | "sfirst", _ => (toString l.storage.firstIndex, l)
+  | "slast", _ => (toString l.storage.lastIndex, l)
+  | "sterm", [i] => (fmtSE toString (l.storage.term (n i)), l)
+  | "sents", [lo, hi, mx] => pz (l.storage.entries (n lo) (n hi) (n mx)) fun r => (fmtSE fmtEntries r, l)
+  | "append", t =>
+    match pNEntries t with
+    | some (ents, _) => pz (l.append ents) fun (l', li) => (toString li, l')
+    | none => ("bad-op", l)
+  | "maybeappend", pi :: pt :: c :: t =>
+    match pNEntries t with
+    | some (ents, _) =>
+      pz (l.maybeAppend { term := n pt, index := n pi } ents (n c)) fun (l', r) =>
+        (match r with | some li => s!"{li} true" | none => "0 false", l')
+    | none => ("bad-op", l)
+  | "findconflict", t =>
+    match pNEntries t with
+    | some (ents, _) => (toString (l.findConflict ents), l)
+    | none => ("bad-op", l)
+  | "findconflictbyterm", [i, t] => let (a, b) := l.findConflictByTerm (n i) (n t); (s!"{a} {b}", l)
+  | "stableto", [i, t] => ("ok", l.stableTo { term := n t, index := n i })
+  | "stablesnapto", [i] => ("ok", l.stableSnapTo (n i))
+  | "acceptunstable", _ => ("ok", l.acceptUnstable)
+  | "restore", t =>
+    match pSnap t with
+    | some (some s, _) => ("ok", l.restore s)
+    | _ => ("bad-op", l)
+  | "committo", [i] => pz (l.commitTo (n i)) fun l' => ("ok", l')
+  | "maybecommit", [i, t] => pz (l.maybeCommit { term := n t, index := n i }) fun (l', b) => (toString (b2n b), l')
+  | "nextcommitted", [a] => pz (l.nextCommittedEnts (a == "1")) fun es => (fmtEntries es, l)
+  | "hasnextcommitted", [a] => (toString (b2n (l.hasNextCommittedEnts (a == "1"))), l)
+  | "acceptapplying", [i, sz, a] => pz (l.acceptApplying (n i) (n sz) (a == "1")) fun l' => ("ok", l')
+  | "appliedto", [i, sz] => pz (l.appliedTo (n i) (n sz)) fun l' => ("ok", l')
+  | "term", [i] => (fmtSE toString (l.term (n i)), l)
+  | "slice", [lo, hi, mx] => pz (l.slice (n lo) (n hi) (n mx)) fun r => (fmtSE fmtEntries r, l)
+  | "entries", [i, mx] => pz (l.entries (n i) (n mx)) fun r => (fmtSE fmtEntries r, l)
+  | "first", _ => (toString l.firstIndex, l)
+  | "last", _ => (toString l.lastIndex, l)
+  | "lastterm", _ => pz l.lastEntryID fun id => (toString id.term, l)
+  | "nextunstable", _ => (fmtEntries l.nextUnstableEnts, l)
+  | "nextunstablesnap", _ => (fmtSnapshot l.unstable.nextSnapshot, l)
+  | "isuptodate", [i, t] => pz (l.isUpToDate { term := n t, index := n i }) fun b => (toString (b2n b), l)
+  | "matchterm", [i, t] => (toString (b2n (l.matchTerm { term := n t, index := n i })), l)
+  | "snapshot", _ => (fmtSnapshot (some l.snapshot), l)
+  | "entssize", t =>
+    match pNEntries t with
+    | some (ents, _) => (s!"{entsSize ents} {payloadsSize ents}", l)
+    | none => ("bad-op", l)
+  | "limitsize", mx :: t =>
+    match pNEntries t with
+    | some (ents, _) => (fmtEntries (limitSize ents (n mx)), l)
+    | none => ("bad-op", l)
+  | _, _ => ("bad-op", l)
+
 def slotDump : Option Slot → String
   | some (.live rn) => rn.dump
   | some (.dead sto _) => s!"dead sto: {fmtStorage sto}"
@@ -281,6 +408,19 @@ def slotDump : Option Slot → String
 def step (st : DriverState) (line : String) : DriverState × String :=
   match splitOn1 line.trimAscii.toString ' ' with
   | "q" :: args => (st, cmdQuorum args)
+  | "cc" :: args => (st, cmdConfChange args)
+  | "lg" :: k :: "new" :: mx :: rest =>
+    match pStorage rest with
+    | some (sto, _) =>
+      let l := RaftLog.new sto (natOrZero mx)
+      ({ st with logs := (natOrZero k, l) :: st.logs.filter (·.1 != natOrZero k) }, s!"ok | {fmtLog l} | {fmtStorage l.storage}")
+    | none => (st, "bad-op")
+  | "lg" :: k :: op :: rest =>
+    match Quorum.lookup st.logs (natOrZero k) with
+    | none => (st, "no-log")
+    | some l =>
+      let (out, l') := logOp l op rest
+      ({ st with logs := (natOrZero k, l') :: st.logs.filter (·.1 != natOrZero k) }, s!"{out} | {fmtLog l'} | {fmtStorage l'.storage}")
   | ["verbose", v] => ({ st with verbose := v == "1" }, "ok")
   | ["sp", "init", c0, c1] =>
     ({ st with spec := { cfg := Spec.jointCfg (idList c0) (idList c1) } }, "ok")
